@@ -219,6 +219,11 @@ pub fn check(c: &FragCase, obs: &mut Obs) -> Check {
     let well_shaped = alt >= 1.0 && maxc <= 128.0;
     let factor = if well_shaped { 1.0 } else { (maxc.max(128.0) / alt.max(1e-9) / 128.0).max(1.0) };
     let finite_only = alt < 0.01;
+    // outside the well-shaped domain the sampling-position error of the stepped edges (band_for) times the
+    // steepest perspective gradient (range * z-ratio / altitude) bounds the attribute error (DESIGN D-c/D-i)
+    let zmin = z.iter().cloned().fold(f64::MAX, f64::min);
+    let zratio = if zmin > 0.0 { z.iter().cloned().fold(f64::MIN, f64::max) / zmin } else { 1.0 };
+    let steep = if well_shaped { 0.0 } else { 2.0 * band_for(maxc) * zratio / alt.max(1e-9) };
     let check_finite = area2 * 0.5 > 1e-6;
     let pos_tol = band_for(maxc).max(1e-3);
     // f32 rounding floor for (nearly) constant fields, where 0.5 % of the range is ~0: the
@@ -259,7 +264,7 @@ pub fn check(c: &FragCase, obs: &mut Obs) -> Check {
         }
         let Some(l) = bary(t, centre) else { continue };
         let pz = plane_at(t, z, l);
-        let ztol = (0.005 * zr + round_floor * zmag) * factor;
+        let ztol = (0.005 * zr + round_floor * zmag) * factor + steep * zr;
         let ez = (f.pos[2] as f64 - pz).abs();
         obs.max(if well_shaped { "depth-error/tolerance (well-shaped)" } else { "depth-error/tolerance (thin or large)" }, ez / ztol);
         ensure!(ez <= ztol, "depth-interpolation", "pixel ({},{}) depth {} but the plane through the vertex depths gives {:.7} (tolerance {:.2e})", f.x, f.y, f.pos[2], pz, ztol);
@@ -269,7 +274,7 @@ pub fn check(c: &FragCase, obs: &mut Obs) -> Check {
             let lo = a[k].iter().cloned().fold(f64::MAX, f64::min);
             let hi = a[k].iter().cloned().fold(f64::MIN, f64::max);
             let mag = lo.abs().max(hi.abs());
-            let tol = (0.005 * (hi - lo) + round_floor * mag + 1e-7) * factor;
+            let tol = (0.005 * (hi - lo) + round_floor * mag + 1e-7) * factor + steep * (hi - lo);
             let e = (f.comps[k] as f64 - expect).abs();
             obs.max(if well_shaped { "attribute-error/tolerance (well-shaped)" } else { "attribute-error/tolerance (thin or large)" }, e / tol);
             if well_shaped && hi - lo > 0.01 * mag {
